@@ -51,13 +51,15 @@ def cas(pkg): return th(pkg).chemicals.CASs
 
 
 def make(tmpl, T=None):
-    """template -> fresh real stream.  ('S', pkg, phase, vi) | ('M', pkg, phases, fill, vi)"""
+    """template -> fresh real stream.  ('S', pkg, phase, vi) | ('R', pkg, phase, vi) = the same flows entered in reversed
+    order (the insertion order of the sparse dict is hidden state: index_overlap derives its CAS-tuple key from it) |
+    ('M', pkg, phases, fill, vi)"""
     t = fixtures.tmo()
-    if tmpl[0] == 'S':
+    if tmpl[0] in ('S', 'R'):
         _, pkg, phase, vi = tmpl
         s = t.Stream(None, thermo=th(pkg), phase=phase)
-        for i, x in enumerate(VEC[pkg][vi]):
-            if x: s._imol.data.dct[i] = x
+        items = [(i, x) for i, x in enumerate(VEC[pkg][vi]) if x]
+        for i, x in (items if tmpl[0] == 'S' else reversed(items)): s._imol.data.dct[i] = x
     else:
         _, pkg, phases, fill, vi = tmpl
         s = t.MultiStream(None, thermo=th(pkg), phases=tuple(phases))
@@ -97,7 +99,7 @@ def eq_tot(a, b):
 
 def cls(tmpl_or_stream, pkg=None):
     if isinstance(tmpl_or_stream, tuple):
-        return ('single' if tmpl_or_stream[0] == 'S' else 'multi') + '-' + tmpl_or_stream[1]
+        return ('single' if tmpl_or_stream[0] != 'M' else 'multi') + '-' + tmpl_or_stream[1]
     t = fixtures.tmo()
     return ('multi' if isinstance(tmpl_or_stream, t.MultiStream) else 'single') + '-' + pkg
 
@@ -129,7 +131,8 @@ def full_digest(s):
     imol = s._imol
     if isinstance(s, t.MultiStream): ph = ('M', tuple(imol._phases))
     else: ph = ('S', imol._phase._phase)
-    return (type(s).__name__, tuple(s.chemicals.IDs), ph, fixtures.sparse_digest(imol.data))
+    rows = imol.data.rows if hasattr(imol.data, 'rows') else [imol.data]
+    return (type(s).__name__, tuple(s.chemicals.IDs), ph, fixtures.sparse_digest(imol.data), tuple(tuple(r.dct) for r in rows))
 
 
 def cache_digest(pkg):
@@ -153,6 +156,7 @@ def menu(level):
     if level == 'mid':
         q = menu('quick'); mini = menu('mini')
         return mini + [t for j, t in enumerate(q) if t not in mini and j % 4 == 1][:12]
+    out += [('R', 'B', 'l', 2), ('R', 'B', 'g', 2)]       # same chemicals as ('S','B',p,2), entered in the other order
     for pkg in ('A', 'B'):
         vis = QUICK_V[pkg] if level == 'quick' else range(len(VEC[pkg]))
         for p in SINGLE_PHASES:
@@ -197,7 +201,7 @@ class Mix(System):
             for selfk in (0, 1, 2):
                 cfgs.append((recv, False, selfk, None))
                 for t1 in m: cfgs.append((recv, False, selfk, t1))
-        eb = [t for t in m if all(p in 'lg' for p in (t[2] if t[0] == 'S' else ''.join(t[2])))]
+        eb = [t for t in m if all(p in 'lg' for p in (t[2] if t[0] != 'M' else ''.join(t[2])))]
         for recv in ('single-l', 'single-g', 'multi-gl'):
             for selfk in (0, 1, 2):
                 cfgs.append((recv, True, selfk, None))
@@ -222,7 +226,7 @@ class Mix(System):
         m2 = menu('quick' if tier == 'quick' else 'full')
         m3 = menu('mini' if tier == 'quick' else 'mid')
         if eb:
-            ok = lambda t: all(p in 'lg' for p in (t[2] if t[0] == 'S' else ''.join(t[2])))
+            ok = lambda t: all(p in 'lg' for p in (t[2] if t[0] != 'M' else ''.join(t[2])))
             m2 = [t for t in m2 if ok(t)]; m3 = [t for t in m3 if ok(t)]
         acts = [()]
         acts += [(t2,) for t2 in m2]
@@ -280,7 +284,7 @@ class Mix(System):
     def outcome(self, st, a, obs):
         recv, eb, selfk, t1 = st.config
         tm = ([] if t1 is None else [t1]) + list(a)
-        return repr((recv, eb, selfk, tuple(sorted(cls(t) + ':' + (t[2] if t[0] == 'S' else ''.join(t[2])) for t in tm)), obs,
+        return repr((recv, eb, selfk, tuple(sorted(cls(t) + ':' + (t[2] if t[0] != 'M' else ''.join(t[2])) for t in tm)), obs,
                      type(st.r).__name__))[:300]
 
 
@@ -315,9 +319,9 @@ class Split(System):
                         if o != 'feed' and o[1] == 'B' and f[1] == 'A': ok = False     # outlet must be a superset of the feed
                     if not ok: continue
                     fph = f[2] if f[0] == 'S' else ''.join(f[2])
-                    if f[0] == 'M' and any(o != 'feed' and any(q not in fph for q in (o[2] if o[0] == 'S' else ''.join(o[2]))) for o in (o1, o2)): continue
+                    if f[0] == 'M' and any(o != 'feed' and any(q not in fph for q in (o[2] if o[0] != 'M' else ''.join(o[2]))) for o in (o1, o2)): continue
                     for eb in (False, True):
-                        if eb and any(p not in 'lg' for t in (f, o1, o2) if t != 'feed' for p in (t[2] if t[0] == 'S' else ''.join(t[2]))): continue
+                        if eb and any(p not in 'lg' for t in (f, o1, o2) if t != 'feed' for p in (t[2] if t[0] != 'M' else ''.join(t[2]))): continue
                         cfgs.append((f, o1, o2, eb))
         k = seed % len(cfgs)
         return cfgs[k:] + cfgs[:k]
@@ -434,7 +438,10 @@ class SepCopy(System):
             for src in COPY_SRC:
                 for k in COPY_KEYS:
                     for ex in (False, True):
-                        acts.append((src, k if not isinstance(k, list) else ('L',) + tuple(k), ex))
+                        kk = k if not isinstance(k, list) else ('L',) + tuple(k)
+                        acts.append((src, kk, ex))
+                        if c[1][0] == 'M':          # MultiStream.copy_flow(other, phase=, IDs=): every phase of the destination
+                            for ph in c[1][2]: acts.append((src, kk, ex, ph))
             return acts
         acts = []
         for form in ('scale', 'imul', 'mul', 'rmul'):
@@ -512,7 +519,8 @@ class SepCopy(System):
 
     def _copy(self, st, a):
         _, dst_t, remove = st.config
-        src_t, k, ex = a
+        src_t, k, ex = a[:3]
+        phase = ... if len(a) < 4 or a[3] == '...' else a[3]
         key = ... if k == '...' else (list(k[1:]) if isinstance(k, tuple) and k and k[0] == 'L' else k)
         dst = make(dst_t); src = make(src_t)
         st.objs = [dst, src]
@@ -520,6 +528,7 @@ class SepCopy(System):
         multi_dst = isinstance(dst, t.MultiStream)
         sc = cas(src_t[1]); dc = cas(dst_t[1])
         names = {'Water': '7732-18-5', 'Ethanol': '64-17-5', 'Methanol': '67-56-1', '64-17-5': '64-17-5'}
+        chosen = set(sc)
         if key is ...: sel = set(sc) if not ex else set()
         else:
             ks = [key] if isinstance(key, str) else list(key)
@@ -527,17 +536,22 @@ class SepCopy(System):
             sel = (set(sc) - chosen) if ex else chosen
         s0 = totals(src); d0 = totals(dst)
         sden = {ph: v.copy() for ph, v in fixtures.dense(src).items()}
-        match = dict(op='copy_flow', dst=dst_t[0], src=src_t[0], cross=dst_t[1] != src_t[1], key=('...' if key is ... else type(key).__name__), exclude=ex)
+        src_ph = list(sden)
+        R = set(src_ph) if (phase is ... or not multi_dst) else {ph for ph in src_ph if ph == phase}
+        match = dict(op='copy_flow', dst=dst_t[0], src=src_t[0], cross=dst_t[1] != src_t[1], key=('...' if key is ... else type(key).__name__), exclude=ex,
+                     phase='...' if phase is ... else ('src' if R else 'other'))
         # inside the quantifier: the destination package lists every chemical that is moved; the key names chemicals of the destination
         moved = {c_ for c_ in sel if c_ in sc}
         key_ok = key is ... or all(names[x] in dc for x in ([key] if isinstance(key, str) else key))
         inside = key_ok and all((c_ in dc) for c_ in moved if s0.get(c_, 0.)) and all(c_ in dc for c_ in sc)
         key_in_src = key is ... or all(names[x] in sc for x in ([key] if isinstance(key, str) else key))
         try:
-            if multi_dst: dst.copy_flow(src, ..., key, remove=remove, exclude=ex)
+            if multi_dst: dst.copy_flow(src, phase, key, remove=remove, exclude=ex)
             else: dst.copy_flow(src, key, remove=remove, exclude=ex)
         except Exception as e:
             en = type(e).__name__
+            if multi_dst and en == 'UndefinedPhase' and any(ph.lower() not in {q.lower() for q in dst.phases} for ph in src_ph):
+                raise Rejected('copy_flow:phase-absent-in-destination', cut=False)
             if multi_dst and isinstance(e, ValueError) and 'same chemicals' in str(e):
                 raise Rejected('copy_flow:multi-dst-other-package', cut=False)
             if not inside:
@@ -547,26 +561,43 @@ class SepCopy(System):
             raise Violation('unexpected-exception', f'{dst_t!r}.copy_flow({src_t!r}, {key!r}, remove={remove}, exclude={ex}) raised {en}: {e}',
                             match=dict(match, exc=en, where=where(e), key_in_src=key_in_src))
         if not inside: raise Rejected('copy_flow:outside-quantifier-returned', cut=False)
-        s1 = totals(src); d1 = totals(dst)
-        st.info = dict(nontrivial=any(s0.get(c_, 0.) for c_ in moved))
-        if multi_dst:
-            # a multi-phase destination receives the material phase by phase; rows the source does not have keep their content
-            dd = fixtures.dense(dst)
-            for ph, v in sden.items():
-                row = dd.get(ph)
-                for j, x in enumerate(v):
-                    if sc[j] in moved and (row is None or row[dc.index(sc[j])] != x):
-                        raise Violation('copy-total', f'{dst_t!r}.copy_flow({src_t!r}, {key!r}, remove={remove}, exclude={ex}): phase {ph} of the destination holds '
-                                        f'{None if row is None else row.tolist()!r}, the source had {v.tolist()!r} of moved chemical {sc[j]}', match=dict(match, side='dst'))
-        for c_ in moved:
-            if not multi_dst and d1.get(c_, 0.) != s0.get(c_, 0.):
-                raise Violation('copy-total', f'{dst_t!r}.copy_flow({src_t!r}, {key!r}, remove={remove}, exclude={ex}): destination holds {d1!r} of moved chemical {c_}, source had {s0!r}', match=match)
-            if remove and s1.get(c_, 0.) != 0.:
-                raise Violation('copy-total', f'copy_flow(remove=True) left {s1.get(c_)!r} of moved chemical {c_} in the source (duplicated)', match=dict(match, side='src-kept'))
-        for c_ in sc:
-            if (c_ not in moved or not remove) and s1.get(c_, 0.) != s0.get(c_, 0.):
-                raise Violation('copy-total', f'{dst_t!r}.copy_flow({src_t!r}, {key!r}, remove={remove}, exclude={ex}) changed source chemical {c_} from {s0.get(c_)!r} to {s1.get(c_)!r} although it was not moved',
-                                match=dict(match, side='src-lost'))
+        # reference: which (phase, chemical) entries of the source are moved
+        chosen_all = key is ...
+        def in_block(ph, c_):
+            return (ph in R) and (chosen_all or c_ in chosen)
+        sa = fixtures.dense(src)
+        dd = fixtures.dense(dst)
+        d1 = totals(dst)
+        call = f'{dst_t!r}.copy_flow({src_t!r}, phase={phase!r}, IDs={key!r}, remove={remove}, exclude={ex})'
+        arrived = {}
+        any_moved = False
+        for ph, v in sden.items():
+            for j, x in enumerate(v):
+                c_ = sc[j]
+                mv = (not in_block(ph, c_)) if ex else in_block(ph, c_)
+                if key is ... and ex and not multi_dst: mv = False          # Stream.copy_flow(..., exclude=True) is documented as a no-op
+                after = sa[ph][j] if ph in sa else None
+                if mv:
+                    any_moved = any_moved or x > 0
+                    arrived[c_] = arrived.get(c_, 0.) + x
+                    if multi_dst:
+                        row = dd.get(ph)
+                        if row is None or row[dc.index(c_)] != x:
+                            raise Violation('copy-total', f'{call}: phase {ph} of the destination holds {None if row is None else row.tolist()!r}, the source had '
+                                            f'{v.tolist()!r} of moved chemical {c_}', match=dict(match, side='dst'))
+                    if remove and after != 0.:
+                        raise Violation('copy-total', f'{call} left {after!r} of moved chemical {c_} (phase {ph}) in the source: material duplicated',
+                                        match=dict(match, side='src-kept'))
+                    if not remove and after != x:
+                        raise Violation('copy-total', f'{call} changed source entry ({ph}, {c_}) from {x!r} to {after!r} without remove', match=dict(match, side='src-lost'))
+                elif after != x:
+                    raise Violation('copy-total', f'{call} changed source entry ({ph}, {c_}) from {x!r} to {after!r} although it was not moved: material lost',
+                                    match=dict(match, side='src-lost'))
+        if not multi_dst:
+            for c_, x in arrived.items():
+                if d1.get(c_, 0.) != x:
+                    raise Violation('copy-total', f'{call}: destination holds {d1!r}, {x!r} of chemical {c_} was moved', match=dict(match, side='dst'))
+        st.info = dict(nontrivial=any_moved)
         return ('ok', st.info['nontrivial'])
 
     def _scale(self, st, a):
@@ -683,8 +714,14 @@ class History(System):
                 if st.pk[d] == 'B' and st.pk[s_] == 'A': continue
                 acts.append(('copy', d, s_, '...'))
                 acts.append(('copy', d, s_, 'Water'))
+                if isinstance(st.s[d], t.MultiStream) and st.pk[d] == st.pk[s_]:
+                    acts.append(('copy', d, s_, 'Water', st.s[d].phases[0]))      # explicit phase= argument
         for i in range(n):
             for k in (0.5, 3., 0.): acts.append(('scale', i, k))
+        # the same flows entered in another order (what `imol[b] = ..; imol[a] = ..` instead of a, b does): no flow changes,
+        # only the insertion order of the sparse dict, from which index_overlap derives its cache key
+        for i in B_idx:
+            if not isinstance(st.s[i], t.MultiStream) and len(st.s[i]._imol.data.dct) >= 2: acts.append(('reorder', i))
         return acts
 
     @staticmethod
@@ -746,21 +783,41 @@ class History(System):
                 S[mx].separate_out(S[p], energy_balance=False)
                 new = {mx: add(tot[mx], tot[p], -1.0)}
             elif op == 'copy':
-                _, d, s_, key = a
+                _, d, s_, key = a[:4]
+                ph = a[4] if len(a) > 4 else None
                 match = dict(op='copy_flow', dst='M' if isinstance(S[d], t.MultiStream) else 'S', src='M' if isinstance(S[s_], t.MultiStream) else 'S',
                              cross=st.pk[d] != st.pk[s_], key='...' if key == '...' else 'str', exclude=False)
                 multi_dst = isinstance(S[d], t.MultiStream)
                 kk = ... if key == '...' else key
-                if multi_dst: S[d].copy_flow(S[s_], ..., kk, remove=True)
-                else: S[d].copy_flow(S[s_], kk, remove=True)
                 wc = '7732-18-5'
-                if key == '...':
+                if ph is not None:
+                    sd = fixtures.dense(S[s_])
+                    amount = float(sd[ph][cas(st.pk[s_]).index(wc)]) if ph in sd else 0.
+                    match['phase'] = 'src' if ph in sd else 'other'
+                    S[d].copy_flow(S[s_], ph, kk, remove=True)
+                    if ph in sd:
+                        got_row = fixtures.dense(S[d])[ph][cas(st.pk[d]).index(wc)]
+                        if got_row != amount:
+                            raise Violation('copy-total', f'{a!r}: phase {ph} of the destination holds {got_row!r} of Water, the source row had {amount!r}', match=dict(match, side='dst'))
+                    ns = dict(tot[s_]); ns[wc] = tot[s_].get(wc, 0.) - amount
+                    new = {s_: ns}
+                    tot[d] = totals(S[d])            # the destination's other entries follow the documented copy semantics
+                    before_all[d] = full_digest(S[d])
+                elif multi_dst: S[d].copy_flow(S[s_], ..., kk, remove=True)
+                else: S[d].copy_flow(S[s_], kk, remove=True)
+                if ph is not None: pass
+                elif key == '...':
                     new = {d: dict(tot[s_]), s_: {c: 0. for c in tot[s_]}}
                     new['partial_dst'] = False
                 else:
                     nd = dict(tot[d]); nd[wc] = tot[s_].get(wc, 0.)
                     ns = dict(tot[s_]); ns[wc] = 0.
                     new = {d: nd, s_: ns, 'partial_dst': True}
+            elif op == 'reorder':
+                dct = S[a[1]]._imol.data.dct
+                items = list(reversed(list(dct.items()))); dct.clear(); dct.update(items)
+                match = dict(op='reorder'); new = {}
+                before_all[a[1]] = full_digest(S[a[1]])
             elif op == 'scale':
                 _, i, x = a
                 match = dict(op='scale', stream=k(i))
